@@ -66,11 +66,18 @@ def _limit(mem_gb):
 
 
 _ext_ready = False
+_ext_lock = threading.Lock()
 
 
 def sync_lock():
     """the external crate must see exactly the dependency versions of the repository's Cargo.lock; when the checks
     run against another tree than /repo the crate is copied with its path dependencies redirected"""
+    global EXT, _ext_ready
+    with _ext_lock:
+        _sync_lock_locked()
+
+
+def _sync_lock_locked():
     global EXT, _ext_ready
     if REPO != "/repo" and not _ext_ready:
         dst = os.path.join(BUILD, "ext-src")
@@ -105,6 +112,8 @@ def _cmd(where, harness, target_dir, extra):
         cmd += ["--manifest-path", WHERE[where]]
     cmd += ["--target-dir", target_dir, "-Z", "stubbing", "-Z", "concrete-playback", "--concrete-playback=print",
             "--harness", harness, "--exact"]
+    if where == "s3s-fs" and "--lib" not in extra:
+        cmd.append("--lib")      # the bin target of s3s-fs needs the `binary` feature
     cmd += extra
     return cmd
 
